@@ -1472,7 +1472,16 @@ func (a *align) MaxCharStats(ignoreGaps, ignoreNs bool) (out []uint8, occur []in
 			mapstats[uint8(unicode.ToUpper(rune(seq.sequence[site])))]++
 		}
 
-		for k, v := range mapstats {
+		// Characters are visited in sorted order, so that ties
+		// are always broken the same way (smallest character wins)
+		keys := make([]int, 0, len(mapstats))
+		for k := range mapstats {
+			keys = append(keys, int(k))
+		}
+		sort.Ints(keys)
+		for _, ki := range keys {
+			k := uint8(ki)
+			v := mapstats[k]
 			// If we exclude gaps and it is a gap: we do nothing
 			// Otherwise, if v > max, we update max occurence char
 			if !(ignoreGaps && k == GAP) && !(ignoreNs && (k == all || k == allc)) {
@@ -1562,8 +1571,15 @@ func (a *align) Entropy(site int, removegaps bool) (float64, error) {
 		}
 	}
 
-	for _, v := range occur {
-		proba := float64(v) / float64(total)
+	// Characters are visited in sorted order, so that the
+	// floating point sum is always computed in the same order
+	keys := make([]int, 0, len(occur))
+	for k := range occur {
+		keys = append(keys, int(k))
+	}
+	sort.Ints(keys)
+	for _, k := range keys {
+		proba := float64(occur[uint8(k)]) / float64(total)
 		entropy -= proba * math.Log(proba)
 	}
 
@@ -1815,7 +1831,10 @@ func (a *align) Pssm(log bool, pseudocount float64, normalization int) (pssm map
 	/* Initialize entropy if NORM_LOGO*/
 	entropy = make([]float64, a.Length())
 	/* Applying normalization factors */
-	for k, v := range pssm {
+	// Characters are visited in alphabet order, so that the entropy
+	// (floating point sum) is always computed in the same order
+	for _, k := range alphabet {
+		v := pssm[k]
 		for i := range v {
 			v[i] = v[i] * normfactors[k]
 			if normalization == PSSM_NORM_LOGO {
